@@ -5,10 +5,14 @@ For every Message subclass found by introspection and every declared parameter: 
 tags) are put through dict, JSON, form encoding and (sampled) JWT/JWE on the REAL classes.
  * correspondence: Model/Msg.v (construct / to_dict / to_urlencoded / from_urlencoded) and the text
    layer (Lib/Utf8.v, Lib/Qs.v) are evaluated by vm_compute on the same inputs (cases of the modelled
-   fragment: str/int/bool scalars, both [str] list kinds, extras, language tags);
+   fragment: str/int/bool scalars, both [str] list kinds, extras, language tags); the nested-message
+   deserializers (deserialize_from_one_of and every parameter deserializer that yields a nested message)
+   against Model/Msg.v one_of, for nested classes and values of that fragment;
  * oracle (from the property text, independent of the model): the message after a serialise /
    deserialise cycle equals the message before (deep comparison of _dict; form encoding: up to the
-   textual rendering of int and bool).
+   textual rendering of int and bool); for nested messages also: what the nested message says after
+   construction and after every cycle is the intended content (construction from a dict IS the dict
+   deserialisation, so the constructed message cannot serve as its own reference).
 """
 import copy
 import json
@@ -21,7 +25,12 @@ from msg_common import canon, pure_json, coq_msg, coq_res, attempt, kind_sig, ti
 RULE = ("every Message subclass (introspection) x every declared parameter x schema-directed values (21 "
         "metacharacter/non-ASCII strings, a 300-char string, ints incl. 0/negative/2^63, both booleans, lists of "
         "0/1/many with blank and spaced elements, nested messages) + extra parameters + language-tagged keys, each "
-        "through dict, JSON and form encoding; per class full messages through JWT (HS256/RS256/ES256) and JWE; a "
+        "through dict, JSON and form encoding; per class full messages through JWT (HS256/RS256/ES256) and JWE; "
+        "every nested-message parameter x 11 strings with form-encoding metacharacters (=, &, +, %, #, quotes, "
+        "non-ASCII: a URL with a query, base64 padding, Room=12) at each kind of position inside the nested message "
+        "(declared member, extra member, JSON object member, a nested message one level down) x {nested object, "
+        "plain dict} through dict, JSON and a signed JWT (RS256/ES256), judged against the intended content; the "
+        "nested-message deserializers and deserialize_from_one_of against the model on the same values; a "
         "malformed query-string stream for from_urlencoded; a case is one (class, parameter, value) cell and is "
         "non-trivial when the message was constructed and at least one wire format was exercised")
 ASSUMPTIONS = ["json.dumps / json.loads are inverse on JSON values (trusted text layer, exercised by the oracle)",
@@ -53,7 +62,7 @@ class Run:
         self.rng = ctx.rng
         self.classes = C.discover()
         self.byname = dict(self.classes)
-        self.cases = {"construct": [], "to_dict": [], "to_url": [], "from_url": []}
+        self.cases = {"construct": [], "to_dict": [], "to_url": [], "from_url": [], "one_of": []}
         self.culprits = {}
         self.cells = 0
 
@@ -276,6 +285,232 @@ class Run:
                         inner["x_extra"] = s
                     out.append([inner] if isinstance(typ, list) else inner)
         return [(v, False, True) for v in out]
+
+    # ---- nested messages carried over dict / JSON / signed JWT
+    # strings that are plain data inside JSON but have a meaning in ANOTHER wire format (form encoding)
+    NESTED_STRS = ["Room=12", "https://rp.example/cb?a=1&b=2", "YWJjZA==", "k=v&k2=v2", "=", "a+b c", "100% &more",
+                   "x#frag", "q\"uo'te=1", "å=ö 日本", "plain"]
+
+    def nested_class(self, ent):
+        """the Message class a nested-message parameter holds: what its deserializer builds from a plain
+        dict (the declared type is often just Message: OpenIDSchema.address -> AddressClaim)"""
+        from idpyoidc.message import Message
+        typ, _, ser, deser, _ = ent
+        lst = isinstance(typ, list)
+        elem = typ[0] if lst and len(typ) == 1 else typ
+        if not (isinstance(elem, type) and issubclass(elem, Message)) or deser is None:
+            return None
+        pv = C.plain_value(ent)
+        got = attempt(lambda: deser(copy.deepcopy(pv), sformat="dict"))
+        if got[0] == "ok":
+            x = got[1][0] if isinstance(got[1], list) and got[1] else got[1]
+            if isinstance(x, Message):
+                return type(x)
+        return elem
+
+    def nested_variants(self, ent, s, depth=0):
+        """[(where, plain dict)] : the plain (JSON) content of one nested message with the string `s` at each
+        kind of position: a declared str member, a member outside the nested schema, a JSON object member,
+        and (one level down) the same positions of a nested message of the nested message"""
+        nc = self.nested_class(ent)
+        if nc is None:
+            return []
+        pv = C.plain_value(ent)
+        base = copy.deepcopy(pv[0] if isinstance(pv, list) else pv)
+        if not isinstance(base, dict):
+            return []
+        if base == {"k": "v"}:
+            base = {}
+        out = []
+        strp = [k for k, e in nc.c_param.items() if tier1(e) == "str"]
+        if strp:
+            k0 = strp[0] if strp[0] not in base or len(strp) == 1 else strp[1]
+            out.append(("declared:" + k0, dict(base, **{k0: s})))
+        out.append(("extra", dict(base, x_note=s)))
+        out.append(("object", dict(base, x_obj={"value": s, "essential": True})))
+        if depth < 1:
+            for k2, e2 in nc.c_param.items():
+                if k2 != "*" and self.family(e2) in ("message", "ia-message") and e2[3] is not None:
+                    for where, inner in self.nested_variants(e2, s, depth + 1)[:2]:
+                        out.append(("%s/%s" % (k2, where), dict(base, **{k2: inner})))
+        return out
+
+    def instance_of(self, ent, plain):
+        """the nested message as an object of its class, members assigned bottom-up (nothing is parsed)"""
+        nc = self.nested_class(ent)
+        inst = nc()
+        for k, v in plain.items():
+            e2 = nc.c_param.get(k)
+            if e2 is not None and isinstance(v, dict) and self.family(e2) in ("message", "ia-message") and e2[3] is not None:
+                inst._dict[k] = self.instance_of(e2, v)
+            else:
+                inst[k] = copy.deepcopy(v)
+        return inst
+
+    @staticmethod
+    def unwrap(v):
+        """canonical form with the Message wrappers removed: what the value says, as JSON"""
+        if isinstance(v, dict):
+            if set(v) == {"__msg__", "d"}:
+                return Run.unwrap(v["d"])
+            return {k: Run.unwrap(x) for k, x in v.items()}
+        if isinstance(v, list):
+            return [Run.unwrap(x) for x in v]
+        return v
+
+    def nested_cell(self, name, cls, key, ent, where, plain, mode, jwt_keys=None):
+        """one nested-message cell.  `plain` is the intended content of the nested message (JSON); the
+        message is built with a nested object (mode 'instance') or from the plain dict (mode 'dict' = the dict
+        wire form handed to the class).  Oracle: after construction and after every dict / JSON / signed-JWT
+        cycle the nested message says exactly `plain` (nothing dropped, split or altered), and the cycle
+        preserves the message (the general oracle)."""
+        ctx = self.ctx
+        lst = isinstance(ent[0], list)
+        want = [plain] if lst else plain
+        value = ([self.instance_of(ent, plain)] if lst else self.instance_of(ent, plain)) if mode == "instance" else copy.deepcopy(want)
+        kw = dict(C.base_kwargs(cls))
+        kw[key] = value
+        rec = {"class": name, "kwargs": canon(kw), "key": key, "nested": where, "mode": mode, "intended": want}
+        self.cells += 1
+        built = attempt(lambda: cls(**copy.deepcopy(kw)))
+        ctx.case_seen(rec, built[0] == "ok")
+        ctx.count("nested:cells")
+        if built[0] == "exc":
+            ctx.count("nested:construct-refused")
+            self.violation("dict", cls, key, {key: want}, {}, built[1], rec)
+            return
+        m = built[1]
+        before = canon(dict(m._dict))
+        if key not in before or not strict_eq(self.unwrap(before[key]), want):
+            self.violation("dict", cls, key, {key: want}, {key: self.unwrap(before.get(key, "<absent>"))}, None, rec)
+            ctx.count("nested:altered-at-construction")
+            return
+        json_ok = True
+        for fmt in ("dict", "json"):
+            res = self.roundtrip(cls, m, fmt)
+            ctx.count("roundtrip:nested:" + fmt)
+            if res[0] == "ok" and key in res[1] and not strict_eq(self.unwrap(res[1][key]), want):
+                self.violation(fmt, cls, key, {key: want}, {key: self.unwrap(res[1][key])}, None, rec)
+                json_ok = False
+                continue
+            if res[0] != "ok" or self.differing(fmt, before, res[1]):
+                json_ok = False
+            self.judge(fmt, name, cls, key, kw, before, res, rec)
+        if jwt_keys is None or not json_ok:
+            return
+        kj, kt, alg = jwt_keys
+        iss = m._dict.get("iss", "")
+        iss = iss if isinstance(iss, str) else ""
+        if iss and iss not in kj:
+            kj.import_jwks(kj.export_jwks(private=True), iss)
+        m1 = copy.deepcopy(m)
+        w = attempt(lambda: m1.to_jwt(key=kj.get_signing_key(kt, iss), algorithm=alg))
+        rj = dict(rec, jwt_alg=alg)
+        if w[0] == "exc":
+            self.violation("jwt", cls, key, before, {}, w[1], rj)
+            return
+        before = canon(dict(m1._dict))          # IdToken.pack may add iat (class-specific post-processing)
+        m2 = attempt(lambda: cls().from_jwt(w[1], kj))
+        ctx.count("roundtrip:nested:jwt:" + alg)
+        if m2[0] == "exc":
+            self.violation("jwt", cls, key, before, {}, m2[1], rj)
+            return
+        after = canon(dict(m2[1]._dict))
+        if key not in after or not strict_eq(self.unwrap(after[key]), want):
+            self.violation("jwt", cls, key, {key: want}, {key: self.unwrap(after.get(key, "<absent>"))}, None, rj)
+        elif self.differing("jwt", before, after):
+            self.violation("jwt", cls, self.differing("jwt", before, after)[0], before, after, None, rj)
+
+    def nested(self):
+        """every parameter that holds a nested message (or a list of them) and has a deserializer, x strings
+        with form-encoding metacharacters at each kind of position inside the nested message, x {nested
+        object, plain dict} x dict / JSON / signed JWT"""
+        from cryptojwt.key_jar import build_keyjar
+        ctx, rng = self.ctx, self.rng
+        kj = build_keyjar([{"type": "RSA", "use": ["sig"]}, {"type": "EC", "crv": "P-256", "use": ["sig"]}])
+        algs = [("RSA", "RS256"), ("EC", "ES256")]
+        for name, cls in self.classes:
+            for key, ent in cls.c_param.items():
+                if key == "*" or self.family(ent) not in ("message", "message-list", "ia-message", "ia-message-list"):
+                    continue
+                if self.nested_class(ent) is None:
+                    continue
+                ctx.count("nested:parameters")
+                strs = self.NESTED_STRS if not ctx.quick else self.NESTED_STRS[:2] + rng.sample(self.NESTED_STRS[2:], 3)
+                for i, s in enumerate(strs):
+                    vs = self.nested_variants(ent, s)
+                    if ctx.quick and i >= 2:
+                        vs = vs[:2]
+                    for j, (where, plain) in enumerate(vs):
+                        for mode in ("instance", "dict"):
+                            jw = (kj,) + (rng.choice(algs) if ctx.quick else algs[(i + j) % 2]) \
+                                if (j == 0 and (i < 2 or not ctx.quick)) else None
+                            self.nested_cell(name, cls, key, ent, where, plain, mode, jwt_keys=jw)
+
+    def one_of_cases(self):
+        """correspondence for the nested-message deserializers (model: Model/Msg.v one_of).  Functions under
+        test, all found by introspection: every module-level deserialize_from_one_of of the message package
+        (with every nested class that occurs in a schema) and every deserializer of a scalar nested-message
+        parameter (dict and JSON hand it the nested dict; those built on the helper also get form text).
+        Inputs: the nested variants above that lie in the modelled fragment of the nested class."""
+        import sys
+        ctx = self.ctx
+        targets, ncs, desers = [], {}, {}
+        for name, cls in self.classes:
+            for key, ent in cls.c_param.items():
+                if key == "*" or self.family(ent) not in ("message", "ia-message") or ent[3] is None:
+                    continue
+                nc = self.nested_class(ent)
+                if nc is None:
+                    continue
+                ncs.setdefault(nc, ent)
+                desers.setdefault(ent[3], (nc, ent))
+        qual = {c: n for n, c in self.classes}
+        for mn, mod in sorted(sys.modules.items()):
+            h = getattr(mod, "deserialize_from_one_of", None) if mn.startswith("idpyoidc.message") else None
+            if callable(h) and getattr(h, "__module__", None) == mn:
+                for nc, ent in sorted(ncs.items(), key=lambda x: x[0].__module__ + x[0].__qualname__):
+                    targets.append((C.fname(h), (lambda val, fmt, h=h, nc=nc: h(val, nc, fmt)), nc, ent, ("dict", "json", "urlencoded")))
+        for d, (nc, ent) in sorted(desers.items(), key=lambda x: C.fname(x[0])):
+            on_helper = "deserialize_from_one_of" in getattr(getattr(d, "__code__", None), "co_names", ())
+            targets.append((C.fname(d), (lambda val, fmt, d=d: d(val, sformat=fmt)), nc, ent,
+                            ("dict", "json", "urlencoded") if on_helper else ("dict", "json")))
+        wire = {"dict": "WDict", "json": "WJson", "urlencoded": "WUrl"}
+        from idpyoidc.message import Message
+        for label, fn, nc, ent, fmts in targets:
+            if nc not in qual:
+                ctx.count("one_of:skipped(nested class is not a class of the table)")
+                continue
+            for s in self.NESTED_STRS:
+                for where, plain in self.nested_variants(ent, s):
+                    if not self.in_fragment(nc, plain):
+                        ctx.count("one_of:outside-fragment")
+                        continue
+                    for fmt in fmts:
+                        if fmt == "urlencoded":
+                            t = attempt(lambda: nc(**copy.deepcopy(plain)).to_urlencoded())
+                            if t[0] != "ok":
+                                continue
+                            val, term = t[1], "(VStr %s)" % coq_str(t[1])
+                        else:
+                            val, term = copy.deepcopy(plain), coq_pyval(plain)
+                        out = attempt(lambda: fn(val, fmt))
+                        rec = {"deserializer": label, "class": qual[nc], "format": fmt, "value": canon(val)}
+                        ctx.case_seen(rec, out[0] == "ok")
+                        ctx.count("one_of:" + fmt)
+                        if out[0] == "ok":
+                            if not isinstance(out[1], Message):
+                                ctx.mismatch("nested-message deserializer %s returned %r, not a message" % (label, out[1]), rec)
+                                continue
+                            out = ("ok", canon(dict(out[1]._dict)))
+                            if not pure_json(out[1]):
+                                ctx.unmodelled += 1
+                                continue
+                        elif out[1] not in C.EXC:
+                            ctx.count("skipped-model:exception-class:" + out[1])
+                            continue
+                        inp = "(%s, %s, %s)" % (coq_str(qual[nc]), wire[fmt], term)
+                        self.cases["one_of"].append(("(%s, %s)" % (inp, coq_res(out, coq_msg)), inp, rec))
 
     # ---- every listed known finding has a fixed witness, replayed first on every run
     WITNESSES = [
@@ -563,7 +798,8 @@ class Run:
         for kind, ty, chk, fn in (("construct", "pystr * msg * res msg", "chk_construct", "m_construct"),
                                   ("to_dict", "pystr * msg * res msg", "chk_to_dict", "m_to_dict"),
                                   ("to_url", "pystr * msg * res pystr", "chk_to_url", "m_to_url"),
-                                  ("from_url", "pystr * pystr * res msg", "chk_from_url", "m_from_url")):
+                                  ("from_url", "pystr * pystr * res msg", "chk_from_url", "m_from_url"),
+                                  ("one_of", "pystr * wire * pyval * res msg", "chk_one_of", "m_one_of")):
             cs = self.cases[kind]
             if len(cs) > cap:
                 cs = self.rng.sample(cs, cap)
@@ -578,6 +814,8 @@ def run(ctx):
     r.cross_class()
     r.text_layer()
     r.grid()
+    r.nested()
+    r.one_of_cases()
     r.malformed()
     r.jwt()
     r.run_model()
@@ -586,6 +824,18 @@ def run(ctx):
 
 def replay(ctx, rp):
     case = rp.get("case") or {}
+    if isinstance(case, dict) and "class" in case and "nested" in case and "intended" in case:
+        r = Run(ctx)
+        cls = dict(r.classes).get(case["class"])
+        ent = cls.c_param.get(case["key"]) if cls is not None else None
+        if ent is not None:
+            from cryptojwt.key_jar import build_keyjar
+            plain = case["intended"][0] if isinstance(case["intended"], list) else case["intended"]
+            alg = case.get("jwt_alg") or "RS256"
+            kj = build_keyjar([{"type": "RSA", "use": ["sig"]}, {"type": "EC", "crv": "P-256", "use": ["sig"]}])
+            r.nested_cell(case["class"], cls, case["key"], ent, case["nested"], plain, case.get("mode", "instance"),
+                          jwt_keys=(kj, "EC" if alg.startswith("ES") else "RSA", alg))
+            return
     if isinstance(case, dict) and "class" in case and "kwargs" in case:
         r = Run(ctx)
         byname = dict(r.classes)
